@@ -634,6 +634,10 @@ class CtxWorld:
 
     # ---------------------------------------------------------------- generation
     def generate(self, streams, tier, index):
+        if self.prop == "C11" and index % 8 == 3:
+            from . import ctx_default
+
+            return ctx_default.generate(streams, self.prop)
         kr = streams.get("knobs")
         knobs = {
             "numtype": kr.choice(["float", "Fraction", "Fraction"]),
@@ -691,6 +695,10 @@ class CtxWorld:
     # ---------------------------------------------------------------- execution
     def run_case(self, case, col: Collector, log: Log | None = None):
         """Execute one case; return the first Violation or None."""
+        if case.get("kind") == "default":
+            from . import ctx_default
+
+            return ctx_default.run_case(case, col, log or Log())
         run = _Run(self.prop, case, col, log or Log())
         try:
             with core.gc_controlled():
@@ -706,6 +714,9 @@ class CtxWorld:
 
     # ---------------------------------------------------------------- evidence
     def sample(self, case):
+        if case.get("kind") == "default":
+            return {"index": case["index"], "kind": "bundled registry and contexts", "program": case["program"],
+                    "fault_plan": case["faults"]}
         return {"index": case["index"], "knobs": case["knobs"], "definitions": render(case["spec"]),
                 "python_contexts": [c["name"] for c in case["spec"]["contexts"] if c["via"] != "file"],
                 "program": case["program"], "fault_plan": case["faults"]}
@@ -729,7 +740,10 @@ class CtxWorld:
                     "different length, several shortest chains, parameters inherited/overridden, redefinitions with "
                     "dependants, python-callable rules) + a program of activations in four forms and probe conversions in "
                     "seven forms; each probe result must equal the exact value (Fraction worlds) of some shortest chain "
-                    "computed by a cache-free reference model. distinct_nontrivial = distinct (probe form, outcome kind, "
+                    "computed by a cache-free reference model. One run in eight uses the bundled registry and its seven "
+                    "contexts (spectroscopy, boltzmann, energy, chemistry with parameters, textile, Gaussian, ESU) with "
+                    "expected values from an independent reader and evaluator of default_en.txt (tolerance 1e-9). "
+                    "distinct_nontrivial = distinct (probe form, outcome kind, "
                     "stack depth, per-call activation?, overlay?) and stack transitions outside the initial empty state.")
         return {
             "rule": rule,
@@ -747,6 +761,11 @@ class CtxWorld:
 
     # ---------------------------------------------------------------- minimisation
     def shrink(self, case):
+        if case.get("kind") == "default":
+            from . import ctx_default
+
+            yield from ctx_default.shrink(case)
+            return
         prog = case["program"]
         # 1. delete statements (all levels)
         for cand in _shrink_program(prog):
